@@ -1,5 +1,5 @@
 import sys, z3, time as _time, threading
-sys.path.insert(0, "/repo"); sys.path.insert(0, __import__("os").path.dirname(__file__))
+sys.path.insert(0, __import__("os").environ.get("VERIF_REPO", "/repo")); sys.path.insert(0, __import__("os").path.dirname(__file__))
 import symx_prototype as symx
 from symx_prototype import SInt, SBool, SReal
 from esrally.driver import driver
